@@ -1915,8 +1915,11 @@ void vm_execute_mk_range(vm * machine, bytecode * code)
 
     for (d = 0;  d < dims; d++)
     {
+        /* a range holds the values its bounds had when it was built, not the bound
+           expressions' cells: a later assignment to a bound variable must not move it */
+        int bound = gc_get_int(machine->collector, machine->stack[machine->sp--].addr);
         gc_set_vec(machine->collector, range, d,
-                    machine->stack[machine->sp--].addr);
+                   gc_alloc_int(machine->collector, bound));
     }
 
     machine->sp++;
